@@ -125,7 +125,7 @@ def run_gen(case, R):
         x2 = t2data.t2data(f1, meshfilename=(mesh1 or ''))
     e2 = data.extract(x2)
     exp2 = data.through_format(m, xp_sections=[data.XP_SECTIONS[k] for k in written_xp])
-    if m['mesh_mode'] == 'binary':
+    if m['mesh_mode'] == 'binary' and 'ELEME' not in written_xp:
         for b in exp2['blocks']:
             for k in ('volume', 'x', 'y', 'z'): b[k] = next(bb[k] for bb in m['blocks'] if bb['name'] == b['name'])
             b['ahtx'] = next(bb['ahtx'] for bb in m['blocks'] if bb['name'] == b['name']) or 0.0
@@ -174,6 +174,12 @@ def run_gen(case, R):
             # the echoed copy in the main file is re-derived from the companion file's differently rounded value
             # (double rounding is inherent to echoing): only the later cycles are required to be stable
             R.exclude('stability:first-rewrite-of-echoed-main-file')
+            # ... but the rewritten main file must still echo the same sections in the same order
+            try:
+                s1, s2 = t2_ref.read(a, autough2=au)['sections'], t2_ref.read(b, autough2=au)['sections']
+                R.check(s1 == s2, 'stability:echoed-sections-changed', 'main file sections %r, after read and rewrite %r' % (s1, s2))
+            except Exception as e:
+                R.fail('stability:rewritten-file-unreadable', repr(e))
         elif strip_trailing(ba) != strip_trailing(bb):
             la, lb = strip_trailing(ba).split(b'\n'), strip_trailing(bb).split(b'\n')
             i = next((i for i, (p, q) in enumerate(zip(la, lb)) if p != q), min(len(la), len(lb)))
